@@ -33,7 +33,9 @@ func (reg *ResourceRegistry) ScanStorage(root string) error {
 		if err != nil {
 			return err
 		}
-		if !strings.HasPrefix(root, reg.storageDir.Path) {
+		// compare with the separator appended, so that a sibling directory that merely shares
+		// the storage dir's name as a prefix is not accepted
+		if root != reg.storageDir.Path && !strings.HasPrefix(root, reg.storageDir.Path+string(filepath.Separator)) {
 			return errors.New("supplied scan root path not within storage")
 		}
 	}
